@@ -65,6 +65,27 @@ def expected_binary(kind, text, scratch):
     return bytes.fromhex(o['file']) if o['ok'] else None
 
 
+def gen_simargs(rng):
+    """Options of hexsim / xrun that must not change the exit status: a cycle limit far above the run length, tracing; each before or
+    after the file name (so also as the very last argument)."""
+    before, after = [], []
+    if rng.random() < 0.4:
+        (before if rng.random() < 0.5 else after).extend(['--max-cycles', str(rng.choice([100000000, 4000000000, 123456789]))])
+    if rng.random() < 0.25:
+        (before if rng.random() < 0.5 else after).append(rng.choice(['-t', '--trace']))
+    return dict(before=before, after=after)
+
+
+def sim_cmd(tool, simargs, file):
+    sa = simargs or dict(before=[], after=[])
+    return [tool] + sa['before'] + [file] + sa['after']
+
+
+def traced(simargs):
+    sa = simargs or dict(before=[], after=[])
+    return any(a in ('-t', '--trace') for a in sa['before'] + sa['after'])
+
+
 def gen_history(rng, tier):
     ops = []
     n = rng.randint(1, 10)
@@ -120,12 +141,12 @@ def gen_history(rng, tier):
             cands = [h for h in have if h[1] == 'x']
             if cands:
                 name, kind, acc, text, info = rng.choice(cands)
-                ops.append(dict(op='xrun', src=name, accepted=acc, text=text, info=info))
+                ops.append(dict(op='xrun', src=name, accepted=acc, text=text, info=info, simargs=gen_simargs(rng)))
         else:
             cands = [h for h in have if h[2]]
             if cands:
                 name, kind, acc, text, info = rng.choice(cands)
-                ops.append(dict(op='simulate', src=name, kind=kind, text=text, info=info))
+                ops.append(dict(op='simulate', src=name, kind=kind, text=text, info=info, simargs=gen_simargs(rng)))
     return ops
 
 
@@ -194,9 +215,13 @@ def run_history(ops, scratch):
         elif k == 'xrun':
             info = op['info']
             inp = bytes.fromhex(info['input']) if info else b''
-            r = subprocess.run([toolchain.tool('xrun'), op['src']], cwd=d, input=inp, stdout=subprocess.PIPE, stderr=subprocess.PIPE, timeout=120)
+            cmd = sim_cmd(toolchain.tool('xrun'), op.get('simargs'), op['src'])
+            tr = traced(op.get('simargs'))
+            if cmd[1:] != [op['src']]:
+                labels.add('simulator-options')
+            r = subprocess.run(cmd, cwd=d, input=inp, stdout=subprocess.PIPE, stderr=subprocess.PIPE, timeout=120)
             after = snapshot(d)
-            where = 'step %d: xrun %s' % (step, op['src'])
+            where = 'step %d: xrun %s' % (step, ' '.join(cmd[1:]))
             for n in set(before) | set(after):
                 if n != 'a.bin' and before.get(n) != after.get(n):
                     return '%s: file %s was created or changed' % (where, n), labels
@@ -210,9 +235,9 @@ def run_history(ops, scratch):
                     return '%s: xcmp rejects the source (status %d) but xrun exits 0' % (where, c.returncode), labels
                 continue
             h = subprocess.run([toolchain.tool('hexsim'), t], cwd=scratch, input=inp, stdout=subprocess.PIPE, stderr=subprocess.PIPE, timeout=120)
-            if r.stdout != h.stdout or r.returncode != h.returncode:
+            if (not tr and r.stdout != h.stdout) or r.returncode != h.returncode:
                 return '%s: stdout/status %r/%d, xcmp followed by hexsim gives %r/%d' % (where, r.stdout[:30], r.returncode, h.stdout[:30], h.returncode), labels
-            if info and (r.returncode != (info['exit'] & 0xFF) or r.stdout.hex() != info['out']):
+            if info and (r.returncode != (info['exit'] & 0xFF) or (not tr and r.stdout.hex() != info['out'])):
                 return '%s: status %d output %r, the reference gives %d / %s' % (where, r.returncode, r.stdout[:30], info['exit'] & 0xFF, info['out'][:40]), labels
             if info and info['exit'] > 255:
                 labels.add('exit-outside-0-255')
@@ -226,9 +251,13 @@ def run_history(ops, scratch):
             if c.returncode != 0 or not os.path.exists(t):
                 return 'step %d: %s did not write %s for an accepted source (status %d)' % (step, tool, t, c.returncode), labels
             inp = bytes.fromhex(info['input'])
-            h = subprocess.run([toolchain.tool('hexsim'), t], cwd=d, input=inp, stdout=subprocess.PIPE, stderr=subprocess.PIPE, timeout=120)
-            if h.returncode != (info['exit'] & 0xFF) or h.stdout.hex() != info['out']:
-                return 'step %d: hexsim status %d output %r, the reference gives %d / %s' % (step, h.returncode, h.stdout[:30], info['exit'] & 0xFF, info['out'][:40]), labels
+            cmd = sim_cmd(toolchain.tool('hexsim'), op.get('simargs'), t)
+            tr = traced(op.get('simargs'))
+            if cmd[1:] != [t]:
+                labels.add('simulator-options')
+            h = subprocess.run(cmd, cwd=d, input=inp, stdout=subprocess.PIPE, stderr=subprocess.PIPE, timeout=120)
+            if h.returncode != (info['exit'] & 0xFF) or (not tr and h.stdout.hex() != info['out']):
+                return 'step %d: hexsim %s: status %d output %r, the reference gives %d / %s (stderr %r)' % (step, ' '.join(cmd[1:-1] if cmd[-1] == t else cmd[1:]), h.returncode, h.stdout[:30], info['exit'] & 0xFF, info['out'][:40], h.stderr[:80]), labels
             if info['exit'] > 255:
                 labels.add('exit-outside-0-255')
     return '', labels
